@@ -55,9 +55,10 @@ RUNTIME["C16"] = (["single", "array", "nc", "enumf", "custom", "mixed", "base", 
                   ["w=S", "|full|", "|top|", "s128|", "s128arb|", "range[]", "list"])
 
 GLUE_OWNERS = {"glue-get": ("C01", "C04", "C05", "C08"), "glue-put": ("C02", "C04", "C05", "C08"), "glue-build": ("C13",), "glue-debug": ("C19",),
-               "glue-consts": ("C06",), "glue-core": ("C06",)}
+               "glue-consts": ("C06",), "glue-core": ("C06",), "glue-enum": ("C07", "C10")}
 GLUE_WHAT = {"glue-get": "calling a getter and converting its result", "glue-put": "calling with_/set_ with a value of the field type", "glue-build": "the builder chain in declaration order",
-             "glue-debug": "formatting with {:?}", "glue-consts": "ZERO / DEFAULT / Default::default() / new() / Copy / size_of", "glue-core": "new_with_raw_value / raw_value"}
+             "glue-debug": "formatting with {:?}", "glue-consts": "ZERO / DEFAULT / Default::default() / new() / Copy / size_of", "glue-core": "new_with_raw_value / raw_value",
+             "glue-enum": "new_with_raw_value with its documented result type (the enum itself when exhaustive, Result<enum, storage integer> otherwise) and raw_value"}
 
 TECH = "reference-model monitor at the API boundary of the generated code"
 
